@@ -35,7 +35,7 @@ def trunc_cases(tier, seed):
                     if nc == 385 and mm >= 3:
                         continue
                     for fi in range(len(FS) if nc < 385 else 2):
-                        for rd in (0, 1):
+                        for rd in (0, 1, 2):
                             cases.append((nc, nbytes, mm, fi, rd))
     return cases
 
@@ -64,12 +64,13 @@ def trunc_check(case):
     with open(os.path.join(d, stem + ".meta"), "w") as f:
         f.write(synth.meta_text(items))
     v = []
-    cls = spikeglx.OnlineReader if rd else spikeglx.Reader
-    cname = "online" if rd else "offline"
+    cls = spikeglx.OnlineReader if rd == 1 else spikeglx.Reader
+    cname = ["offline", "online", "offline-ignore-warnings"][rd]
+    kwargs = {"ignore_warnings": True} if rd == 2 else {}
     partial = (nbytes % frame) != 0
     tag = "%s:%s" % (cname, "partial-frame" if partial else "whole-frames")
     try:
-        sr = cls(fbin, sort=False)
+        sr = cls(fbin, sort=False, **kwargs)
     except Exception as e:
         return Res([("open:%s:%s" % (tag, type(e).__name__),
                      "opening a %d-byte file (%d frames of %d bytes + %d trailing bytes, meta claims %d samples, fs=%r) raised %s: %s"
@@ -115,13 +116,14 @@ def cbin_cases(tier, seed):
         for ns_c in range(1, 20 if tier == "quick" else 40):
             for delta in (-3, -1, 0, 1, 4):
                 for fi in (0, 1, 2):
-                    out.append((nc, ns_c, delta, fi))
+                    for iw in (0, 1):
+                        out.append((nc, ns_c, delta, fi, iw))
     return out
 
 
 def cbin_check(case):
     import mtscomp
-    nc, ns_c, delta, fi = case
+    nc, ns_c, delta, fi, iw = case
     fs = FS[fi]
     claimed = max(ns_c + delta, 1)
     k = nc - 1
@@ -138,13 +140,14 @@ def cbin_check(case):
     os.unlink(fbin)
     v = []
     try:
-        sr = spikeglx.Reader(os.path.join(d, stem + ".cbin"), sort=False)
+        sr = spikeglx.Reader(os.path.join(d, stem + ".cbin"), sort=False, ignore_warnings=bool(iw))
     except Exception as e:
         return Res([("cbin:open:%s" % type(e).__name__, "opening a cbin of %d samples whose meta claims %d raised %s: %s"
                      % (ns_c, claimed, type(e).__name__, e))], o="openfail")
     try:
         if sr.ns != ns_c or tuple(sr.shape) != (ns_c, nc):
-            v.append(("cbin:ns", "ns=%r shape=%r but the compressed stream holds %d samples" % (sr.ns, sr.shape, ns_c)))
+            v.append(("cbin:ns" + (":ignore_warnings" if iw else ""), "ns=%r shape=%r but the compressed stream holds %d samples (meta claims %d, ignore_warnings=%s)"
+                      % (sr.ns, sr.shape, ns_c, claimed, bool(iw))))
         if abs(sr.rl - ns_c / fs) > 1e-9:
             v.append(("cbin:duration", "rl=%r, expected %r" % (sr.rl, ns_c / fs)))
         s2v = np.array(synth.ref_s2v("NP2.1", "ap", k, 1)).astype(np.float32)
